@@ -964,4 +964,5 @@ func (c *Ctx) groundNZ(term string) {
 	}
 	c.nzDone[term] = true
 	c.asserts = append(c.asserts, sImp(c.curReach, sNot(sEq(term, "0"))))
+	c.markPathFact()
 }
